@@ -390,6 +390,9 @@ def eq(a, b):
         return z3.BoolVal(a.ref == b.ref)
     if isinstance(a, VFunc) and isinstance(b, VFunc):
         return z3.BoolVal(a.kind == b.kind and a.target is b.target)
+    if isinstance(a, VOpaque) or isinstance(b, VOpaque):
+        # an opaque value compared with a modelled value: unknown (the opaque one may be a str, an int ...)
+        return z3.Bool(uid('opaque_eq'))
     # different shapes are never equal in Python (int vs str, tuple vs None ...)
     return z3.BoolVal(False)
 
